@@ -426,8 +426,10 @@ class GraphBuilder:
             cout = gb.add("Less", [itf, lim], [(B, S0)])[0]
         else:
             # condition on the carried state, which grows by >= 3 per iteration once non-negative
+            # new state = |state| + |f(state, ...)| + 1  (elementwise strictly increasing once non-negative)
             one = gb.const(np.array(1.0, dtype=np.float32))
-            outs[0] = gb.add("Add", [gb.add("Abs", [outs[0]], [(F, V3)])[0], one], [(F, V3)])[0]
+            grown = gb.add("Add", [gb.add("Abs", [cins[0]], [(F, V3)])[0], gb.add("Abs", [outs[0]], [(F, V3)])[0]], [(F, V3)])[0]
+            outs[0] = gb.add("Add", [grown, one], [(F, V3)])[0]
             sm = gb.add("ReduceSum", [outs[0]], [(F, S0)], keepdims=0)[0]
             lim = gb.const(np.array(float(r.choice([4.0, 8.0, 12.0])), dtype=np.float32))
             cout = gb.add("Less", [sm, lim], [(B, S0)])[0]
